@@ -154,8 +154,7 @@ class GridKernel(Kernel):
                     covars = covars.squeeze(-2)  # Get rid of the dimension corresponding to the first point
                     # Un-pad the grid
                     covars = [ToeplitzLinearOperator(covars[..., i, : proj.size(-1)]) for i, proj in enumerate(grid)]
-                    # Due to legacy reasons, KroneckerProductLinearOperator(A, B, C) is actually (C Kron B Kron A)
-                    covar = KroneckerProductLinearOperator(*covars[::-1])
+                    covar = self._kronecker_product(covars)
             else:
                 full_grid = torch.stack(padded_grid, dim=-1)
                 with warnings.catch_warnings():  # Hide the GPyTorch 2.0 deprecation warning
@@ -166,7 +165,7 @@ class GridKernel(Kernel):
                     covar = covars
                 else:
                     covars = [covars[..., i, : proj.size(-1), : proj.size(-1)] for i, proj in enumerate(self.grid)]
-                    covar = KroneckerProductLinearOperator(*covars[::-1])
+                    covar = self._kronecker_product(covars)
 
             if not self.training:
                 self._cached_kernel_mat = covar
@@ -174,6 +173,13 @@ class GridKernel(Kernel):
             return covar
         else:
             return self.base_kernel.forward(x1, x2, diag=diag, last_dim_is_batch=last_dim_is_batch, **params)
+
+    def _kronecker_product(self, covars):
+        # The rows of full_grid (create_data_from_grid) iterate over the first dimension fastest, whereas the
+        # grid indices computed by Interpolation.interpolate (interpolation mode) iterate over the last dimension fastest
+        if self.interpolation_mode:
+            return KroneckerProductLinearOperator(*covars)
+        return KroneckerProductLinearOperator(*covars[::-1])
 
     def num_outputs_per_input(self, x1, x2):
         return self.base_kernel.num_outputs_per_input(x1, x2)
